@@ -32,8 +32,14 @@ def fdefs(m, names):
     return out
 
 
+EXPLANATION += ' R11.10 no integer-literal power (negative, or >= 3) is taken of a quantity that stays an integer when the arguments are integers (numba types arithmetic by its arguments: 0 for a negative power, silent int64 wrap-around for a large one).'
+TECHNIQUE += '; syntactic type flow in numba-compiled kernels (integer-literal powers of integer-typed arguments)'
+
 def run(chk):
     repo = Repo(chk.repo)
+    # R11.10: integer arguments are values like any other; numba keeps them integers until they meet a float (an integer-literal power is taken first)
+    from .common import int_power_lint
+    int_power_lint(chk, repo, 'R11.10', ['TidalPy/dynamics/*.py'])
     it = Interp(repo)
     ms = repo.by_path('TidalPy/dynamics/single_dissipation.py')
     md = repo.by_path('TidalPy/dynamics/dual_dissipation.py')
